@@ -103,8 +103,10 @@ def observe(xform: str) -> dict:
     for el in body.iter():
         t = local(el.tag)
         if t in CONTROL_TAGS:
+            # a control's reference is @ref; @nodeset is a reference only on <repeat> (a user-supplied
+            # `nodeset` attribute on another control is an inert extra attribute, outside C02's statement)
             for a in ("ref", "nodeset"):
-                if a in el.attrib:
+                if a in el.attrib and (a == "ref" or t == "repeat"):
                     body_refs.append(el.get(a))
                     ctl.append(["odk:rank" if t == "rank" else t, el.get(a)])
         elif t in ("setvalue", "setgeopoint"):
@@ -141,8 +143,10 @@ def observe_controls(xform: str) -> list:
     for el in body.iter():
         t = local(el.tag)
         if t in CONTROL_TAGS:
+            # a control's reference is @ref; @nodeset is a reference only on <repeat> (a user-supplied
+            # `nodeset` attribute on another control is an inert extra attribute, outside C02's statement)
             for a in ("ref", "nodeset"):
-                if a in el.attrib:
+                if a in el.attrib and (a == "ref" or t == "repeat"):
                     attrs = {attr_name(k): v for k, v in el.attrib.items() if k not in ("ref", "nodeset")}
                     if "jr:count" in attrs:
                         attrs["jr:count"] = "${" + attrs["jr:count"].strip().split("/")[-1] + "}"
